@@ -23,6 +23,14 @@ def run(rep: Report, repo: Repo):
     rep.trusted = ['each line has exactly one driver (C09), so distinct ops of a level write distinct waveforms given the memory map of C08']
     rep.assumptions = ['NOT DECIDED: correctness of the greedy algorithm for every circuit is argued, not mechanised',
                        'scratch-slot sharing by ops with unconnected outputs is outside "signals" and not examined']
+    schedule_rules(rep, repo)
+    launches(rep, repo)
+    thread_writes(rep, repo)
+
+
+def schedule_rules(rep, repo):
+    """Level test / reference counting / release structure of SimOps.__init__ (also included by the checks of
+    properties whose results depend on a valid schedule: C01, C02, C03, C05, C06)."""
     smod, init = simops.simops_init(repo)
     P = simops.Passes(init)
 
@@ -157,9 +165,6 @@ def run(rep: Report, repo: Repo):
     rep.ob('C07.release', 'free_set is per level', ok)
     if not ok:
         rep.violate('C07.release', smod, init, 'free_set = set()', 'free_set must be re-created for every level before the per-op loop', node=P.alloc_level_loop)
-
-    launches(rep, repo)
-    thread_writes(rep, repo)
 
 
 def launches(rep, repo):
